@@ -134,6 +134,7 @@ type e1run struct {
 	medEnd     []map[int]int64
 	props      map[string]bool // which properties' oracles are evaluated (nil: all)
 	fullFetch  bool            // re-fetch every listed URI at every observation
+	pruned     bool            // the word left the property's domain (a write that has to fail failed): not a violation
 }
 
 func (r *e1run) add(prop, sig, format string, a ...any) {
@@ -191,6 +192,9 @@ func (r *e1run) apply(u wunit) bool {
 	if err != nil {
 		r.writeErr = err.Error()
 		r.writeErrAt = len(r.ops) - 1
+		if strings.Contains(r.writeErr, "unable to extract DTS") && !r.faulted && r.model.dtsUnderivable(u, data) {
+			r.pruned = true
+		}
 		return false
 	}
 	r.opData = append(r.opData, data)
@@ -198,6 +202,10 @@ func (r *e1run) apply(u wunit) bool {
 		return true
 	}
 	r.model.write(u, data)
+	if r.model.extErr != nil {
+		r.add("C01", "dts-derivation-diverged", "write %d was accepted although no decode time can be derived from the written sequence (%v): the muxer derived its decode times from something else than the written units; ops %s", len(r.ops)-1, r.model.extErr, r.opsString())
+		r.model.extErr = nil
+	}
 	// a cut decision that hinges on less than 2 ns follows the muxer (either outcome satisfies the property)
 	if n := len(r.model.cuts); n > 0 && r.model.cuts[n-1].either && r.model.cuts[n-1].atWrite == r.model.nwrites-1 {
 		if int(r.mi.m.leadingStream.nextSegmentID)-r.msn0() == n-1 {
@@ -445,7 +453,7 @@ func (r *e1run) decode(ui *uriInfo) {
 					du := dunit{track: ti, dts: dts, ptsOff: int64(s.PTSOffset), dur: int64(s.Duration), sync: !s.IsNonSyncSample}
 					var err error
 					switch r.cfg.Tracks[ti].Kind {
-					case "h264":
+					case "h264", "h264b":
 						du.data, err = s.GetH264()
 					case "h265":
 						du.data, err = s.GetH265()
@@ -490,7 +498,7 @@ func (r *e1run) decode(ui *uriInfo) {
 			for _, es := range data.PMT.ElementaryStreams {
 				idx := -1
 				for i, t := range r.cfg.Tracks {
-					if (es.StreamType == astits.StreamTypeH264Video && t.Kind == "h264") || (es.StreamType == astits.StreamTypeAACAudio && !t.video()) {
+					if (es.StreamType == astits.StreamTypeH264Video && isH264(t.Kind)) || (es.StreamType == astits.StreamTypeAACAudio && !t.video()) {
 						idx = i
 					}
 				}
